@@ -88,6 +88,7 @@ def program(kind, d):
             ("primary_key", lambda q: q.primary_key("a")),
             ("period_for", lambda q: q.period_for("p", "s", "e")),
             ("temporary", lambda q: q.temporary()),
+            ("unlogged", lambda q: q.unlogged()),
             ("if_not_exists", lambda q: q.if_not_exists()),
             ("versioning", lambda q: q.with_system_versioning()),
         ]
@@ -122,12 +123,38 @@ def program(kind, d):
             ("distinct", lambda q: q.distinct()),
         ]
         need = {0, 1, 2}
+    elif kind == 7:  # correlated sub-select: one WHERE mentions a table outside the sources, one is purely local
+        outer = Table("outer")
+        base = lambda: Q.from_(t)  # noqa: E731
+        calls = [
+            ("select", lambda q: q.select(t.a)),
+            ("where_foreign", lambda q: q.where(t.owner == outer.id)),
+            ("where_local", lambda q: q.where(t.flag == 1)),
+            ("orderby", lambda q: q.orderby(t.a)),
+            ("limit", lambda q: q.limit(2)),
+        ]
+        need = {0}
     else:
         raise AssertionError(kind)
     return base, calls, need
 
 
-NKIND = 7
+def sort_conjuncts(sql):
+    """The WHERE clause's AND operands in sorted order (two where() calls accumulate in call order; which of them
+    came first must not change anything else)."""
+    i = sql.find(" WHERE ")
+    if i < 0:
+        return sql
+    j = len(sql)
+    for kw in (" GROUP BY ", " ORDER BY ", " LIMIT ", " OFFSET ", " FETCH NEXT ", " FOR UPDATE"):
+        k = sql.find(kw, i)
+        if 0 <= k < j:
+            j = k
+    parts = sorted(sql[i + 7:j].split(" AND "))
+    return sql[:i + 7] + " AND ".join(parts) + sql[j:]
+
+
+NKIND = 8
 
 
 def orderings(n):
@@ -221,6 +248,8 @@ def well_formed(sql, kind, d):
         order = ["INSERT", "INTO", "SELECT", "FROM", "JOIN", "WHERE", "ORDER BY", "P"]
     if kind == 6:
         kind = 5
+    if kind == 7:
+        kind = 0
     last = -1
     seen = set()
     for kw in kws:
@@ -249,7 +278,7 @@ def well_formed(sql, kind, d):
     bounds={"quick": {"D2": 0}, "thorough": {"D2": 14}},
     timeout={"quick": 300, "thorough": 2400},
     witness=[dict(kind=0, d=2, drop1=0, drop2=0, o=3), dict(kind=2, d=1, drop1=3, drop2=0, o=1)],
-    doc="7 statement programs x 6 dialect classes; selectors: up to two optional calls dropped, ordering = identity / "
+    doc="8 statement programs x 6 dialect classes; selectors: up to two optional calls dropped, ordering = identity / "
         "reversal / every rotation / every transposition; every ordering renders the canonical SQL, which is well-formed",
 )
 def c13_orders(kind: int, d: int, drop1: int, drop2: int, o: int) -> int:
@@ -287,6 +316,8 @@ def c13_orders(kind: int, d: int, drop1: int, drop2: int, o: int) -> int:
         note("canonical", canon)
         note("sql", got)
         why = None
+        if kind == 7:
+            got, canon = sort_conjuncts(got), sort_conjuncts(canon)
         if got != canon:
             why = "call order changes the statement"
         else:
